@@ -87,13 +87,22 @@ class DtypeStrings(Contract):
                 for text in (want_q, want_q.lower(), ('S' if s else 'U') + '%d.%d' % (n - f, f), ('s' if s else 'u') + '%d.%d' % (n - f, f)):
                     y = Fxp(None, dtype=text)
                     chk('parse_Q', (y.signed, y.n_word, y.n_frac) == (s, n, f), [f, text, y.signed, y.n_word, y.n_frac])
+                # the same strings through resize(dtype=) of receivers of EITHER signedness (empty, and holding a value) and through like= + dtype=
+                for text in (want_q, ('s' if s else 'u') + '%d.%d' % (n - f, f)):
+                    for rs in (True, False):
+                        for v0 in ((None, 0.5) if -4 <= f <= 40 else (None,)):       # (a held value is re-scaled by 2^(f-4): kept clear of the int64 limit, open finding F14)
+                            z = Fxp(0.5, rs, 12, 4) if v0 is not None else Fxp(None, rs, max(n - 1, 1), f - 1)
+                            z.resize(dtype=text)
+                            chk('parse_Q_resize', (z.signed, z.n_word, z.n_frac) == (s, n, f) and z.get_dtype('Q') == want_q, [f, text, 'receiver signed=%s value=%s' % (rs, v0), z.signed, z.n_word, z.n_frac])
+                        yl = Fxp(None, like=Fxp(None, rs, 7, 1), dtype=text)
+                        chk('parse_Q_like', (yl.signed, yl.n_word, yl.n_frac) == (s, n, f), [f, text, 'like signed=%s' % rs, yl.signed, yl.n_word, yl.n_frac])
         return {'bad': bad, 'cases': cases}
 
     def post(self, cfg, inp, obs):
         if obs['exc']:
             return {}
         names = ['render_default', 'render_fxp', 'render_Q', 'render_none', 'parse_ctor', 'parse_resize', 'get_sizes',
-                 'parse_complex', 'parse_like_complex', 'parse_like_real', 'fxp_sum_dtype', 'parse_resize_complex', 'parse_resize_real', 'render_complex', 'get_sizes_complex', 'parse_Q']
+                 'parse_complex', 'parse_like_complex', 'parse_like_real', 'fxp_sum_dtype', 'parse_resize_complex', 'parse_resize_real', 'render_complex', 'get_sizes_complex', 'parse_Q', 'parse_Q_resize', 'parse_Q_like']
         failed = {b[0] for b in obs['bad']}
         out = {k: (k not in failed) for k in names}
         out['nonvacuous'] = obs['cases'] > 50
